@@ -31,7 +31,8 @@ func replayOnRealCode(e *Engine, rep *FuncReport, r *Result, o checkOpts) (strin
 	}
 	var b bytes.Buffer
 	pkgName := fn.Pkg.Pkg.Name()
-	fmt.Fprintf(&b, "package %s\n\nimport (\n\t\"fmt\"\n\t\"testing\"\n)\n\n", pkgName)
+	fmt.Fprintf(&b, "package %s\n\nimport (\n\t\"fmt\"\n\t\"regexp\"\n\t\"testing\"\n)\n\n", pkgName)
+	b.WriteString("func gvcInre(s, pat string) bool { return regexp.MustCompile(pat).MatchString(s) }\n")
 	qual := ""
 	if pkgName != "gofakes3" {
 		return "not replayed: direct replay is generated for the root package only", false
@@ -83,7 +84,7 @@ func replayOnRealCode(e *Engine, rep *FuncReport, r *Result, o checkOpts) (strin
 	// post clauses
 	nClauses := 0
 	for _, c := range fx.ct.Ensures {
-		goSrc, ok := clauseToGo(c, fn.Signature)
+		goSrc, ok := clauseToGo(c, fn.Signature, e.specs.Preds)
 		if !ok {
 			fmt.Fprintf(&b, "\tfmt.Println(\"REPLAY-SKIP clause %s (not executable)\")\n", c.Label)
 			continue
@@ -277,11 +278,13 @@ func smtUnquote(s string) (string, error) {
 }
 
 // clauseToGo compiles a clause to executable Go (same text, builtins mapped).
-func clauseToGo(c *Clause, sig *types.Signature) (string, bool) {
+func clauseToGo(c *Clause, sig *types.Signature, preds map[string]*Pred) (string, bool) {
 	if c.Expr == nil {
 		return "", false
 	}
 	ok := true
+	depth := 0
+	var subst map[string]ast.Expr
 	var rewrite func(x ast.Expr) ast.Expr
 	rewrite = func(x ast.Expr) ast.Expr {
 		switch n := x.(type) {
@@ -298,6 +301,9 @@ func clauseToGo(c *Clause, sig *types.Signature) (string, bool) {
 		case *ast.StarExpr:
 			return &ast.StarExpr{X: rewrite(n.X)}
 		case *ast.Ident:
+			if r, ok := subst[n.Name]; ok {
+				return r
+			}
 			// named results are called retN in the test
 			if sig != nil {
 				for i := 0; i < sig.Results().Len(); i++ {
@@ -318,7 +324,25 @@ func clauseToGo(c *Clause, sig *types.Signature) (string, bool) {
 			for _, a := range n.Args {
 				args = append(args, rewrite(a))
 			}
+			if pr, isPred := preds[name]; isPred && depth < 10 && len(pr.Params) == len(args) {
+				saved := subst
+				ns := map[string]ast.Expr{}
+				for k, v := range subst {
+					ns[k] = v
+				}
+				for i, pn := range pr.Params {
+					ns[pn] = &ast.ParenExpr{X: args[i]}
+				}
+				subst = ns
+				depth++
+				out := rewrite(pr.Body)
+				depth--
+				subst = saved
+				return &ast.ParenExpr{X: out}
+			}
 			switch name {
+			case "inre":
+				return &ast.CallExpr{Fun: ast.NewIdent("gvcInre"), Args: args}
 			case "imp":
 				return &ast.ParenExpr{X: &ast.BinaryExpr{X: &ast.UnaryExpr{Op: token.NOT, X: &ast.ParenExpr{X: args[0]}}, Op: token.LOR, Y: &ast.ParenExpr{X: args[1]}}}
 			case "iff":
@@ -331,7 +355,7 @@ func clauseToGo(c *Clause, sig *types.Signature) (string, bool) {
 				return &ast.CallExpr{Fun: ast.NewIdent("gvcErrcode"), Args: args}
 			case "fresh", "allocated":
 				return ast.NewIdent("true")
-			case "old", "all", "ex", "allref", "allstr", "exstr", "typeis", "dyn", "has", "inre", "prefixof", "suffixof", "contains", "indexof", "substr":
+			case "old", "all", "ex", "allref", "allstr", "exstr", "typeis", "dyn", "has", "prefixof", "suffixof", "contains", "indexof", "substr":
 				ok = false
 				return ast.NewIdent("true")
 			}
